@@ -174,6 +174,11 @@ func Run(o *drv.Out) {
 				if r.Intn(4) == 0 {
 					cp = 0
 				}
+				// caps at the integer-width edges: every one of these means "more than any population"
+				if r.Intn(6) == 0 {
+					edges := []uint64{1<<31 - 1, 1 << 31, 1<<32 - 1, 1 << 32, 1<<63 - 1, 1 << 63, 1<<63 + 1, ^uint64(0) - 1, ^uint64(0)}
+					cp = edges[r.Intn(len(edges))]
+				}
 				if delegate {
 					capD = cp
 				} else {
@@ -186,12 +191,20 @@ func Run(o *drv.Out) {
 				var res string
 				var vs lib.ValidatorSet
 				var e lib.ErrorI
-				if delegate {
-					vs, e = sm.GetDelegates(chain)
+				panicked := drv.Recover(func() string {
+					if delegate {
+						vs, e = sm.GetDelegates(chain)
+					} else {
+						vs, e = sm.GetCommitteeMembers(chain)
+					}
+					return ""
+				})
+				if panicked == "" {
+					res = showSet(vs, e)
 				} else {
-					vs, e = sm.GetCommitteeMembers(chain)
+					res = "panic"
+					o.Fail("C13:committee-derivation-panics", fmt.Sprintf("committee derivation panicked with cap %d: %s", cp, panicked), map[string]any{"case": ci, "chain": chain, "cap": cp, "delegate": delegate})
 				}
-				res = showSet(vs, e)
 				d := 0
 				if delegate {
 					d = 1
@@ -199,6 +212,9 @@ func Run(o *drv.Out) {
 				op := fmt.Sprintf("members %d %d %d", chain, cp, d)
 				o.Op(op, res)
 				o.Count("op:members")
+				if panicked != "" {
+					continue
+				}
 				// oracle (independent of the model): exactly the top-`cap` eligible by (stake, address), power = stake,
 				// threshold = floor(2T/3)+1 when 2T fits
 				ref := refMembers(curList(), chain, cp, delegate)
@@ -264,10 +280,16 @@ func Run(o *drv.Out) {
 					}
 					var vs2 lib.ValidatorSet
 					var e2 lib.ErrorI
-					if del2 {
-						vs2, e2 = sm.GetDelegates(chain2)
-					} else {
-						vs2, e2 = sm.GetCommitteeMembers(chain2)
+					if drv.Recover(func() string {
+						if del2 {
+							vs2, e2 = sm.GetDelegates(chain2)
+						} else {
+							vs2, e2 = sm.GetCommitteeMembers(chain2)
+						}
+						return ""
+					}) != "" {
+						o.Fail("C13:committee-derivation-panics", fmt.Sprintf("committee derivation panicked with cap %d", cp2), map[string]any{"case": ci, "chain": chain2, "cap": cp2, "delegate": del2})
+						continue
 					}
 					d2 := 0
 					if del2 {
